@@ -2118,6 +2118,34 @@ def clamp_sites(db, rep=None):
     return out
 
 
+def id_width_sites(db):
+    """message numbers are inode numbers (unsigned long): nowhere in qmail-send.c is one converted to a narrower type on its way into a function or variable"""
+    import re
+    NARROW = {'int', 'unsigned int', 'short', 'unsigned short', 'char', 'unsigned char', 'signed char'}
+    u = db.unit('qmail-send.c')
+    narrowing, nids = [], 0
+    for f in u.functions.values():
+        for x in f.all_x():
+            if x.k == 'cast' and x.op == 'IntegralCast' and x.args and x.args[0] is not None:
+                a = x.args[0]
+                src = a.src().replace(' ', '')
+                is_id = a.type in ('unsigned long', 'long unsigned int') and (src.endswith('.id') or src.endswith('->id') or re.search(r'(^|[^\w])id$', src) is not None)
+                if is_id:
+                    nids += 1
+                    if x.type in NARROW:
+                        narrowing.append('%s (%s as %s) in %s' % (x.where, src, x.type, f.name))
+            if x.k == 'call':
+                for a in x.args:
+                    if a is not None and a.type in ('unsigned long', 'long unsigned int') and re.search(r'(\.|->|^)id$', a.src().replace(' ', '')):
+                        nids += 1
+        for pn in f.params:
+            if pn.split(':')[-1] == 'id' and f.param_types.get(pn, 'unsigned long') in NARROW:
+                narrowing.append('%s: parameter id of %s() is %s' % (f.unit, f.name, f.param_types.get(pn)))
+    if nids < 10 and not narrowing:
+        raise AnalysisBroken('qmail-send.c: only %d message-number expressions found' % nids)
+    return {'ids:message-numbers-are-never-narrowed': (not narrowing, 'qmail-send.c', 'a message number is converted to a 32-bit type at %s: for inode numbers of 2^32 and more the function works on another message\'s files (a finished recipient is not marked and is delivered again)' % narrowing[:3] if narrowing else '%d message-number expressions' % nids, [])}
+
+
 # =============================================================================== helpers for rule files
 def attach(rule, sites, prefixes=None, only=None, exclude=()):
     n = 0
